@@ -3002,7 +3002,7 @@ func (r *stack) defrag(max int) {
 		spat[i] = 1
 	}
 
-	if !(start == -1 || max <= start) {
+	if start != -1 {
 		tpat := r.implode(start, max, spat)
 		last, err := r.verifyImplode(spat, tpat)
 		r.setErr(err)
